@@ -71,6 +71,9 @@ func repScenarios(thorough bool) []repScenario {
 		out = append(out, repScenario{Name: "late-tx-" + pc, Ops: late(wNoTx, repOp{8 * time.Second, "tx", "d", "d1"}), Settle: settle, PCfg: pc})
 		out = append(out, repScenario{Name: "singles-join-after-" + pc, Ops: wNoTx, JoinAt: 2 * time.Second, Settle: settle, PCfg: pc})
 	}
+	// the primary's memtable is full after every write: rotation and flush are driven by the data, in the background
+	out = append(out, repScenario{Name: "tx-join-before-tinyprimary", Ops: w, Settle: settle, PCfg: "tiny"})
+	out = append(out, repScenario{Name: "tx-join-after-tinyprimary", Ops: w, JoinAt: 2 * time.Second, Settle: settle, PCfg: "tiny"})
 	add("tx-then-late-writes", late(w, repOp{8 * time.Second, "put", "d", "d1"}, repOp{8100 * ms, "put", "e", "e1"}), 0, 0)
 	return out
 }
@@ -267,7 +270,7 @@ func repUnits(tier string) []string {
 }
 
 func init() {
-	rule := "deterministic fair executions (discrete-event virtual time: timers, tickers, deadlines and sleeps fire in due-time order) of the real replication.Primary (on a real engine, registered as log observer, heartbeat and poll loops running) and the real replication.Replica (state machine, batch applier, engine applier on a second real read-only engine) over an in-memory link that replaces gRPC; 41 scenarios = {a primary whose log runs without sync / with batched sync (writes ending in a transaction, a late transaction, join after the writes), a replica run and restarted (engine included) by the real replication.Manager after a transaction, 360 KB of large values with a transaction across the primary's batch size, flushes in a row (log files without entries), a rejected (oversized) transaction between writes, single writes incl. delete, a 3-entry transaction, flushes with log rotation, a single write, writes arriving alone after the replica caught up, a 130-entry transaction (more than one stream message carries)} x replica joins before / during / after the writes or is restarted x {default primary configuration, no compression}; for each, every fault vector with <=1 fault (quick) / <=2 faults (thorough) from {drop, duplicate, late duplicate, reorder by one or two messages, connection break} on the first 3 messages of the first 4 connections (the replica of this tree reads one message per connection and reconnects). "
+	rule := "deterministic fair executions (discrete-event virtual time: timers, tickers, deadlines and sleeps fire in due-time order) of the real replication.Primary (on a real engine, registered as log observer, heartbeat and poll loops running) and the real replication.Replica (state machine, batch applier, engine applier on a second real read-only engine) over an in-memory link that replaces gRPC; 43 scenarios = {a primary whose memtable is full after every write (rotation and flush driven by the data), a primary whose log runs without sync / with batched sync (writes ending in a transaction, a late transaction, join after the writes), a replica run and restarted (engine included) by the real replication.Manager after a transaction, 360 KB of large values with a transaction across the primary's batch size, flushes in a row (log files without entries), a rejected (oversized) transaction between writes, single writes incl. delete, a 3-entry transaction, flushes with log rotation, a single write, writes arriving alone after the replica caught up, a 130-entry transaction (more than one stream message carries)} x replica joins before / during / after the writes or is restarted x {default primary configuration, no compression}; for each, every fault vector with <=1 fault (quick) / <=2 faults (thorough) from {drop, duplicate, late duplicate, reorder by one or two messages, connection break} on the first 3 messages of the first 4 connections (the replica of this tree reads one message per connection and reconnects). "
 	fw.Register(&fw.Check{
 		ID: "C13", Level: "model_checking",
 		Rule:        rule + "Oracle C13: the sequence of entries handed to the replica's engine (recording applier) equals the primary's log, in order, none skipped, none applied twice; the reported applied sequence never decreases and never exceeds the highest applied entry. Non-trivial = executions with at least one fault. Part B (every delivery sequence): explicit-state search over the real WALBatchApplier and over the real Replica message handler (uncompressed, and with ZSTD / Snappy compressed payloads as the protocol allows); a transition delivers one batch [i..j] of a 5-sequence history (15 batches of whole sequences, one a two-entry transaction, real wire encoding), successors by replay on a fresh instance, state = (entries applied, expected next, reported sequence), depth 5 quick / 7 thorough; after every delivery: applied entries = history prefix in order exactly once, reported sequence monotone and not ahead, a batch that continues at the expected sequence is applied completely, any other batch applies nothing and leaves the position alone, a forward gap is answered with a retransmission request from the expected sequence. Target replica-applyfail (depth one less): the same deliveries, each also with the replica's local applier refusing the k-th entry of the message for as long as the message is handled (every k); a retransmission may then repeat entries, but no entry may be applied before all entries ahead of it, the reported sequence never decreases and covers applied entries only",
